@@ -164,6 +164,15 @@ def row(c, r):
       return None
     xf = x.reshape(-1)
     cqz = lambda v: '(%d # 1)%%Q' % int(v)
+    if x.size <= 256:
+      # the model computes the reduction groups itself from the shape and the axes (Model/NdIndex.v groups_by / reduce_key / group_key)
+      tens = '%s %s %s %s %s' % (clist([cZ(int(v)) for v in xf]), clist([cbool(bool(m)) for m in mk]), clist([cqz(v) for v in sc]), clist([cqz(v) for v in bi]),
+                                 clist([cq(y[i]) if mk[i] else '0%Q' for i in range(x.size)]))
+      shape = clist([cnat(int(d)) for d in x.shape])
+      if kind == 'group':
+        return '(group_norm_layer_ok (1 # 100000000) %s %s %s %s)' % (cq(c['epsilon']), shape, cnat(ng), tens)
+      red_axes = red if kind in ('layer', 'rms') else list(range(1, nd - 1))
+      return '(layer_norm_ok (1 # 100000000) %s %s %s %s %s)' % (cq(c['epsilon']), cbool(kind != 'rms'), shape, clist([cnat(a) for a in red_axes]), tens)
     parts = []
     for grp in groups[:12]:
       parts.append('group_norm_ok (1 # 100000000) %s %s %s %s %s %s %s' % (
